@@ -124,10 +124,8 @@ class ArgumentList:
 
                 if do_strip and isinstance(val, str):
                     val = val.strip()
+                # no early exit: a later binding of the same name wins
                 self.named_args[name] = (do_strip, val)
-
-                if n == name:
-                    break
 
         try:
             do_strip, val = self.named_args[n]
